@@ -157,6 +157,26 @@ pub fn stress_sources() -> Vec<(String, String)> {
     ));
     // shared but acyclic values printed several times in one print
     v.push(("shared-values".into(), "let leaf = object begin let v = 1; end;\nlet pair = array(3, leaf);\nlet top = object begin let a = pair; let b = pair; let c = leaf; end;\nprint(\"~ ~ ~\\n\", top, pair, array(2, top));\n".into()));
+    // exact width boundaries: N globals / locals / fields / elements for N around 256
+    for n in [254usize, 255, 256, 257].iter() {
+        let mut s = String::new();
+        for i in 0..*n {
+            s.push_str(&format!("let w{} = {};\n", i, i));
+        }
+        s.push_str(&format!("print(\"~ ~ ~\\n\", w0, w{}, w{});\n", n - 2, n - 1));
+        s.push_str("function loc() -> begin\n");
+        for i in 0..*n {
+            s.push_str(&format!("let q{} = {};\n", i, i * 2));
+        }
+        s.push_str(&format!("q0 + q{} + q{} end;\nprint(\"~\\n\", loc());\n", n - 2, n - 1));
+        s.push_str("let wideobj = object begin\n");
+        for i in 0..*n {
+            s.push_str(&format!("let fld{} = {};\n", i, i + 1));
+        }
+        s.push_str(&format!("end;\nprint(\"~ ~ ~\\n\", wideobj.fld0, wideobj.fld{}, wideobj.fld{});\n", n - 2, n - 1));
+        s.push_str(&format!("let arr = array({}, 0); arr[{}] <- 1; print(\"~ ~\\n\", arr[{}], arr[{}]);\n", n, n - 1, n - 1, n - 2));
+        v.push((format!("width-boundary-{}", n), s));
+    }
     // many labels: 300 conditionals and loops in sequence and nested
     let mut s = String::from("let acc = 0;\n");
     for i in 0..300 {
